@@ -380,10 +380,27 @@ func TestEncodeIdentityRandom(t *testing.T) {
 
 type PalCase struct {
 	Palette ops.Palette `json:"palette"`
+	// Used: what the Encoder went through before this Reset. 0 nothing; 1 a graphic encoded
+	// without any Reset (the zero value implies the default metadata); 2 a graphic under this very
+	// palette; 3 a graphic under another custom palette.
+	Used int `json:"used,omitempty"`
 }
 
 func checkPalette(c PalCase) error {
 	var enc encode.Encoder
+	if c.Used != 0 {
+		switch c.Used {
+		case 2:
+			enc.Reset(ivg.DefaultViewBox, [64]color.RGBA(c.Palette))
+		case 3:
+			enc.Reset(ivg.DefaultViewBox, [64]color.RGBA{{0x10, 0x20, 0x30, 0x40}, {0xff, 0x80, 0x00, 0xff}})
+		}
+		enc.SetCReg(0, false, ivg.PaletteIndexColor(1))
+		enc.StartPath(0, 1, 2)
+		enc.AbsLineTo(3, 4)
+		enc.ClosePathEndPath()
+		enc.Bytes()
+	}
 	enc.Reset(ivg.DefaultViewBox, [64]color.RGBA(c.Palette))
 	b, err := enc.Bytes()
 	if err != nil {
@@ -439,6 +456,10 @@ func TestSuggestedPalettes(t *testing.T) {
 			}
 		}
 		var labels []string
+		if rapid.IntRange(0, 2).Draw(t, "hasused") == 0 {
+			c.Used = rapid.IntRange(1, 3).Draw(t, "used")
+			labels = append(labels, fmt.Sprintf("encoder-used-before(kind-%d)", c.Used))
+		}
 		for f := 0; f < 4; f++ {
 			if forms[f] {
 				labels = append(labels, fmt.Sprintf("has-%d-byte-colour", f+1))
@@ -473,8 +494,11 @@ func TestSuggestedPalettes(t *testing.T) {
 			for i := 0; i < k; i++ {
 				c.Palette[i] = v
 			}
-			n++
-			subPal.Run(t, c)
+			for used := 0; used <= 3; used++ {
+				c.Used = used
+				n++
+				subPal.Run(t, c)
+			}
 		}
 	}
 	for _, a := range []uint8{0, 0x40, 0x80, 0xc0} {
@@ -492,6 +516,49 @@ func TestSuggestedPalettes(t *testing.T) {
 		}
 	}
 	harness.Counter("suggested-palette-table", "each 1-byte colour and each translucent colour with channels in {00,40,80,c0} alone in a palette").AddEnumerated(n, n)
+}
+
+// Every one-byte pattern as an entry of a suggested palette in the one-byte format, after entries
+// that are not black: patterns 0-127 are the table's colours; 128-255 name a palette entry or a
+// register, which a palette cannot refer to, and stand for opaque black.
+type RawPalCase struct {
+	Entries ops.Hex `json:"entries"` // one-byte-format entries, 1..64 of them
+}
+
+func checkRawPalette(c RawPalCase) error {
+	body := append([]byte{0x02, byte(len(c.Entries) - 1)}, c.Entries...)
+	b := append([]byte{0x89, 'I', 'V', 'G', 0x02, byte(2 * len(body))}, body...)
+	want := [64]color.RGBA(ops.DefaultPalette())
+	for i, e := range c.Entries {
+		if cv := spec.Color1(e); cv.T == 0 {
+			want[i] = cv.RGBA()
+		}
+	}
+	rec := &ops.Recorder{}
+	if err := decode.Decode(rec, b); err != nil || len(rec.Ops) == 0 {
+		return harness.Violatef("c09/decoder-table", "one-byte-format suggested palette % x is rejected: %v", b, err)
+	}
+	got := rec.Ops[0].Palette()
+	for i := range got {
+		if got[i] != want[i] {
+			return harness.Violatef("c09/decoder-table", "one-byte-format suggested palette % x: entry %d is delivered as %v, the tables give %v", b, i, got[i], want[i])
+		}
+	}
+	return nil
+}
+
+var subRawPal = harness.Define("one-byte-palette-entries", "all 256 one-byte patterns as the 1st..4th entry of a one-byte-format suggested palette whose other entries are non-black one-byte colours: Reset receives the table colour, or opaque black for the indirect patterns (128-255); non-trivial = an indirect pattern", checkRawPalette)
+
+func TestOneBytePaletteEntries(t *testing.T) {
+	harness.OnlyFirstShard(t)
+	for x := 0; x < 256; x++ {
+		for at := 0; at < 4; at++ {
+			c := RawPalCase{Entries: ops.Hex{0x18, 0x7d, 0x63, 0x05}}
+			c.Entries[at] = byte(x)
+			subRawPal.See(c, x >= 128, harness.Hash(c.Entries), fmt.Sprintf("pattern-class=%d", x/64))
+			subRawPal.Run(t, c)
+		}
+	}
 }
 
 // ---------------------------------------------------------------- blends
